@@ -144,6 +144,11 @@ class BehavioralRTLIRTypeCheckVisitorL3( BehavioralRTLIRTypeCheckVisitorL2 ):
       if v_dtype != field:
         if is_field_reinterpretable:
           target_nbits = field.get_length()
+          # An implicitly sized argument that needs more bits than the field
+          # has would be silently truncated by the enforcer
+          if v_dtype.get_length() > target_nbits:
+            raise PyMTLTypeError( s.blk, node.ast,
+              f"Argument#{idx+1} ( field {name} ) has {target_nbits} bits but the given value requires more bits ({v_dtype.get_length()})!" )
           s.enforcer.enter( s.blk, rt.NetWire(rdt.Vector(target_nbits)), value )
         else:
           raise PyMTLTypeError( s.blk, node.ast,
